@@ -98,6 +98,12 @@ def cases(tier, seed):
                             {"name": "transformations", "kwargs": {"OffsetX": 5}}, {"name": "sortContours"}])]
         if rng.random() < 0.3:
             ufo.setdefault("lib", {})["public.skipExportGlyphs"] = ["a.alt"]
+        if k % 3 == 1 or rng.random() < 0.2:
+            # list-valued info attributes given explicitly, every style-map style
+            ufo["info"]["styleMapStyleName"] = "bold italic" if k % 3 == 1 else rng.choice(["bold", "italic", "regular"])
+            ufo["info"]["openTypeOS2Selection"] = rng.choice([[7], [8, 7], []])
+            ufo["info"]["openTypeOS2Type"] = [2]
+            ufo["info"]["openTypeHeadFlags"] = [0, 1, 3]
         hist = []
         for _ in range(rng.choice([1, 2, 2])):
             fn = rng.choice(["compileTTF", "compileOTF"])
